@@ -19,6 +19,7 @@ package main
 import (
 	"encoding/json"
 	"fmt"
+	"github.com/zeromicro/go-zero/core/stores/redis"
 	"os"
 	"strconv"
 	"strings"
@@ -106,6 +107,23 @@ func main() {
 		out := bfs.Search()
 		if cfg.BFSWorker != "" {
 			os.Exit(0)
+		}
+		// exclusion rests on every instance having its own id: 200 000 instances created in one
+		// process (more than any 16-bit sequence can tell apart) must have pairwise distinct ids
+		{
+			const n = 200000
+			e := getEnv()
+			seen := make(map[string]int, n)
+			for i := 0; i < n; i++ {
+				id := redis.VerifLockID(redis.NewRedisLock(e.cli, "k1"))
+				if j, dup := seen[id]; dup {
+					r.Violation("lock-ids-not-distinct:same-process", fmt.Sprintf("RedisLock instances #%d and #%d of one process share the id %q: the second one's Acquire would refresh, and its Release delete, the first one's lock", j, i, id), Case{})
+					break
+				}
+				seen[id] = i
+			}
+			r.Eval(n)
+			r.Scenario("lock-ids", map[string]any{"instances": n})
 		}
 		r.AddStates(out.States)
 		r.AddTransitions(out.Transitions)
